@@ -148,6 +148,16 @@ Definition is_param_of (ds : list vdef) (p v : nat) : Prop :=
 Definition bad_signature (ds : list vdef) : Prop :=
   exists v s prm, nth_error ds v = Some (DLinked (CPlain s)) /\ In prm s /\ p_kind prm <> KwOnly.
 
+(** "[i] is (transitively) needed to compute [j]", straight from the definitions *)
+Definition depends (ds : list vdef) : nat -> nat -> Prop := clos_trans nat (is_param_of ds).
+
+(** the four defects of the property text, on the definitions *)
+Definition unknown_param (ds : list vdef) : Prop := exists p v, is_param_of ds p v /\ length ds <= p.
+Definition self_param (ds : list vdef) : Prop := exists v, is_param_of ds v v.
+Definition isolated_def (ds : list vdef) : Prop :=
+  exists i, i < length ds /\ (forall p, ~ is_param_of ds p i) /\ (forall c, ~ is_param_of ds i c).
+Definition cyclic_defs (ds : list vdef) : Prop := exists i, depends ds i i.
+
 (** ** Comparison helpers used by the executable correspondence (harness/props/c15.py) *)
 
 Definition ferr_code (e : ferr) : nat :=
